@@ -8,12 +8,16 @@ DetectRows  == {[kind |-> "detect", bs |-> b, final |-> f] : b \in Seqs(4), f \i
 CharsetRows == {[kind |-> "charset", name |-> n, cut |-> c, full |-> 11 + (IF n = "utf-8" THEN 5 ELSE 10), final |-> f, unicode |-> u] :
                     n \in {"utf-8", "iso-8859-1"}, c \in 0..MaxCut, f \in BOOLEAN, u \in BOOLEAN}
 Encodings == {"utf-8", "utf-8-sig", "utf-16", "utf-16-le", "utf-16-be", "utf-32", "utf-32-le", "utf-32-be",
-              "iso-8859-1", "koi8-r", "cp1252", "ascii"}
+              "iso-8859-1", "koi8-r", "cp1252", "ascii", "iso-2022-jp"}       \* the last one is stateful: its encoder must be flushed
 BomFamily == {"utf-8-sig", "utf-16", "utf-32"}
 Bodies == {"empty", "ascii", "latin1", "cyrillic", "bmp", "astral"}
 RoundRows == {[kind |-> "roundtrip", body |-> b, enc |-> e, cs |-> c, mode |-> m,
                used |-> IF e = "utf-8-sig" THEN "utf-8" ELSE e] :
                   b \in Bodies, e \in Encodings, c \in {"none", "same", "other"}, m \in {"given", "auto"}}
+             \* force=False: the given encoding yields only to an EXPLICIT statement in the bytes (BOM or @charset rule); here
+             \* there is none or one that agrees, so the given encoding decides
+             \cup {[kind |-> "roundtrip", body |-> b, enc |-> e, cs |-> c, mode |-> "given-noforce",
+                    used |-> IF e = "utf-8-sig" THEN "utf-8" ELSE e] : b \in Bodies, e \in Encodings, c \in {"none", "same"}}
 \* cut sets: at most MaxCuts cuts within the first ChunkLen units, plus the two extreme schedules
 CutSets == {S \in SUBSET (1..(ChunkLen - 1)) : Cardinality(S) <= MaxCuts}
 ChunkRows == {[kind |-> "chunk", cls |-> k, enc |-> e, text |-> t, cuts |-> SetToSortSeq(S, <), every |-> FALSE] :
